@@ -23,7 +23,7 @@ RULE = ('statements generated from a grammar (reads inside arithmetic, every com
         'distinct_nontrivial = distinct AST shapes (ast.dump of the statement with constants abstracted), and distinct context-switch '
         'sequences of the concurrent runs')
 CASES = {'quick': 400, 'thorough': 20000}
-BUDGET = {'quick': 40, 'thorough': 300}
+BUDGET = {'quick': 150, 'thorough': 300}
 REQUIRE = {'statements': 4000, 'probes': 8000, 'plain_reads_ok': 100, 'self_augassign_ok': 100, 'concurrent_runs': 200,
            'concurrent_statements_checked': 300, 'concurrent_switch_between_get_and_set': 40}
 ANNOUNCE_CASES = True
